@@ -924,6 +924,35 @@ def run_restored(am: AM, engine, events, k, seed_ctx=None):
             out["orig_log_offset"] = nA
             if _json.dumps(persisted, sort_keys=True, default=str) != _json.dumps(kept, sort_keys=True, default=str):
                 problems.append("the snapshot object changed when the interpreter it was taken from kept running")
+            # isolation between interpreters restored from ONE snapshot over ONE machine object (none of them instrumented: the
+            # recorder's hooks replace the active set of the interpreter they are attached to): the first runs the continuation, the
+            # idle second still holds the snapshot's state afterwards, and a third restore of the same text starts there too
+            try:
+                recC = Rec(am)
+                mC = create_machine(am.to_config(context=seed_ctx), logic=build_logic(am, recC, engine))
+                C1 = cls.from_snapshot(text, mC)
+                C2 = cls.from_snapshot(text, mC)
+                if engine == "async":
+                    await C1.start()
+                    await quiesce(C1)
+                for ev in events[k:]:
+                    await op(C1, recC, ev)
+                twin = C2.get_persisted_snapshot()
+                if _json.dumps(twin, sort_keys=True, default=str) != _json.dumps(kept, sort_keys=True, default=str):
+                    problems.append("two interpreters were restored from one snapshot over one machine; the first ran %d more event(s) and the "
+                                    "second, which did nothing, no longer holds the snapshot's state: %s vs %s"
+                                    % (len(events[k:]), _json.dumps(twin, sort_keys=True, default=str)[:300], _json.dumps(kept, sort_keys=True, default=str)[:300]))
+                third = cls.from_snapshot(text, mC).get_persisted_snapshot()
+                if _json.dumps(third, sort_keys=True, default=str) != _json.dumps(kept, sort_keys=True, default=str):
+                    problems.append("restoring the same snapshot text once more over the same machine, after an earlier restored interpreter had run "
+                                    "%d more event(s), does not give the snapshot's state: %s vs %s"
+                                    % (len(events[k:]), _json.dumps(third, sort_keys=True, default=str)[:300], _json.dumps(kept, sort_keys=True, default=str)[:300]))
+                try:
+                    await call(C1.stop())
+                except Exception:
+                    pass
+            except Exception as exc:
+                problems.append("re-reading / re-restoring the snapshot failed: %r" % exc)
             for it in (A, B):
                 try:
                     await call(it.stop())
